@@ -453,10 +453,10 @@ func (e *Engine) intrinsic(fr *Frame, st *State, callee *ssa.Function, args []Va
 			// pinning is only sound for postconditions stated on every path after the call
 			if h.holeBlock != nil && (postDominates(site.Block(), h.holeBlock) || pcBranchFree(st.pc, h.holePC)) {
 				h.pinCond = True
-			} else if h.holeBlock != nil {
-				h.pinCond = pcBranchDelta(st.pc, h.holePC)
+			} else {
+				h.pinCond = nil // postcondition stated on some paths only: nothing is pinned
 			}
-			if h.holeBlock != nil {
+			if h.holeBlock != nil && h.pinCond == True {
 				if h.pinCond == True {
 					e.refineHavoc(st, h, c)
 				}
